@@ -15,11 +15,11 @@ from lib import gz, glist, gbool, gopt
 IMPORTS = "Base.Prelude Base.CaseLib Ops.Machine Ops.Elementwise"
 
 
-def ops_table():
+def ops_table(values=None):
     import reactivex as rx
     from reactivex import operators as ops
     from reactivex.notification import OnNext, OnError, OnCompleted
-    pool = Pool(POOL)
+    pool = Pool(values if values is not None else POOL)
     K = pool.K
     idenc = lambda v: gz(pool.id(v))
     T = {}
